@@ -32,6 +32,18 @@ var (
 		sql.LevelSerializable:    ASELevelSerializableRead,
 		sql.LevelLinearizable:    ASELevelInvalid,
 	}
+
+	// ase2sql maps dblib.ASEIsolationLevel to sql.IsolationLevel.
+	//
+	// sql2ase cannot be searched for the reverse direction: several
+	// sql.IsolationLevel map to the same ASEIsolationLevel and map
+	// iteration order is random.
+	ase2sql = map[ASEIsolationLevel]sql.IsolationLevel{
+		ASELevelReadUncommitted:  sql.LevelReadUncommitted,
+		ASELevelReadCommitted:    sql.LevelReadCommitted,
+		ASELevelRepeatableRead:   sql.LevelRepeatableRead,
+		ASELevelSerializableRead: sql.LevelSerializable,
+	}
 )
 
 // ASEIsolationLevelFromGo take a database/sql.IsolationLevel and returns
@@ -52,10 +64,8 @@ func ASEIsolationLevelFromGo(lvl sql.IsolationLevel) (ASEIsolationLevel, error) 
 // ToGo returns the database/sql.IsolationLevel equivalent of the ASE
 // isolation level.
 func (lvl ASEIsolationLevel) ToGo() sql.IsolationLevel {
-	for sqlLvl, aseLvl := range sql2ase {
-		if aseLvl == lvl {
-			return sqlLvl
-		}
+	if sqlLvl, ok := ase2sql[lvl]; ok {
+		return sqlLvl
 	}
 
 	return sql.LevelDefault
